@@ -148,7 +148,8 @@ class SchemaGen:
             self.use("string_format")
             return {"type": "string", "format": self.pick(STR_FORMATS)}
         self.use("string_unknown_format")
-        return {"type": "string", "format": self.pick(["email", "hostname", "custom"])}
+        return {"type": "string", "format": self.pick(["email", "hostname", "custom", "partial-date-time", "time", "duration",
+                                                       "uri", "regex", "binary", "Date", "uuid4"])}
 
     def s_string_enum(self, no_null=True):
         # the nullable form only where a null alternative cannot overlap a sibling (see s_scalar)
